@@ -19,7 +19,7 @@ BOUNDS = {
 }
 ASSUMPTIONS = ["floats modelled as exact reals", "Criteria.__call__ replaced by an arbitrary boolean (both outcomes explored)",
                "non-degenerate data: paths on which arburg itself raises ValueError (non-positive error) are its documented rejection"]
-OUTSIDE = ["order >= 3 in general (expression swell)", "the numerical content of criteria.py (logarithms of symbolic values)",
+OUTSIDE = ["order >= 3 in general (expression swell)", "the numerical content of criteria.py (logarithms of symbolic values; their scale behaviour is decided in C03)",
            "N > 6"]
 BUDGET = {"quick": 900, "thorough": 3400}
 
